@@ -284,9 +284,25 @@ def spectrum_dicts(ix, R):
                 'native_tau': 'tau'}
         why = []
         st = {}
+
+        def readback(rf_):
+            # an entry read back from the dictionary being built (`output['native_wlgrid']` after it was stored) is the
+            # value that was stored under that key
+            def f_(a_, at_, nargs_):
+                if at_.head == 'idx' and len(nargs_) == 2 and isinstance(nargs_[1], RF):
+                    ka_ = atom_of(fl, nargs_[1])
+                    ba_ = atom_of(fl, nargs_[0]) if isinstance(nargs_[0], RF) else None
+                    if ka_ is not None and ka_.head == 'const' and ba_ is not None and ba_.head in ('alloc', 'dict', 'call', 'tuple'):
+                        key_ = ka_.args[0].strip("'\"")
+                        vs_ = facts.get(key_, [])
+                        if len(vs_) == 1 and isinstance(vs_[0][0], RF):
+                            return vs_[0][0]
+                return None
+            return fl.tab.rewrite(rf_, f_) if isinstance(rf_, RF) else rf_
         for k, w in want.items():
             got = facts.get(k, [])
-            if len(got) != 1 or not fl.tab.equal(got[0][0], spec(fl, w, b)):
+            if len(got) != 1 or not (fl.tab.equal(got[0][0], spec(fl, w, b)) or
+                                     fl.tab.equal(readback(got[0][0]), spec(fl, w, b))):
                 why.append('%s = %s' % (k, [fmt(fl, g_[0]) for g_ in got] or None))
             if len(got) == 1:
                 st[k] = got[0][1]
